@@ -235,7 +235,33 @@ def run(ctx, chk, tier="quick"):
                    key="%s|default-reference" % fq, why="without a reference the highest level of the curve is the origin", scope=f)
             desc["default"] = ok if (ok or not _unread(chk, ctx, f)) else None
         else:
-            chk.indeterminate("C09.O4", where_of(f, f.node), "default reference index not found")
+            # `if ref is None: ref = <default>` before one conversion ref -> index: the default goes through the conversion too
+            rebound = []
+            if "explicit" in kinds:
+                for n_ in ast.walk(kinds["explicit"][2].value):
+                    if isinstance(n_, ast.Name) and n_.id == ref:
+                        for d_ in sorted(flow.reaching_defs(n_) or set()):
+                            st_ = flow.cfg.stmt_of.get(d_)
+                            if isinstance(st_, ast.Assign) and len(st_.targets) == 1 and isinstance(st_.targets[0], ast.Name) and st_.targets[0].id == ref:
+                                rebound.append(st_)
+                        break
+            if len(rebound) == 1:
+                st_ = rebound[0]
+                v_ = st_.value
+                ids_max = isinstance(v_, ast.Call) and isinstance(v_.func, ast.Name) and v_.func.id == "max" and len(v_.args) == 1
+                scaled = isinstance(v_, ast.BinOp) and isinstance(v_.op, ast.Mult) and any(
+                    isinstance(o_, ast.Call) and isinstance(o_.func, ast.Name) and o_.func.id == "max" for o_ in (v_.left, v_.right)) and any(
+                    isinstance(o_, ast.Name) and o_.id == step_name for o_ in (v_.left, v_.right))
+                if ids_max or scaled:
+                    chk.ob("C09.O4", scaled, where_of(f, st_), "default reference: %s = %s, then index = %s" % (ref, ast.unparse(v_)[:60], kinds["explicit"][1][:60]),
+                           "the highest level id of the curve itself (or that id x step, if it is to pass through level / step)",
+                           key="%s|default-reference" % fq, scope=f,
+                           why="the keys of the mapping are level ids (level / step): dividing the largest id by the step once more puts the origin at level max / step, which is the highest level only for a step of 1 mm")
+                    desc["default"] = scaled if (scaled or not _unread(chk, ctx, f)) else None
+                else:
+                    chk.indeterminate("C09.O4", where_of(f, st_), "default reference %s = %s passes through the level -> index conversion; not read" % (ref, ast.unparse(v_)[:60]))
+            else:
+                chk.indeterminate("C09.O4", where_of(f, f.node), "default reference index not found")
         # ---- O2 / O3: the rejection
         gs = []
         for g in guards_of(f, include_assert=False):
